@@ -1,25 +1,1048 @@
-"""C18 helper module: stepwise workflow builders, iivsearch builders, MFL algebra (part of harness/props/c18.py)."""
+"""C18 helper module (part of harness/props/c18.py): stepwise workflow builders, iivsearch builders,
+the not_supported_combo translator and the ModelFeatures algebra."""
+import ast
+import hashlib
+import json
+import re
+from pathlib import Path
+
+from harness.lib import coqterm as ct
+from harness.lib.core import BUILD, REPO, THEORIES, coqc_file
+
+GEN = BUILD / 'gen' / 'C18'
+
+_impl_cache = {}
 
 
-def observe(spec):
-    raise ValueError('unknown spec kind ' + str(spec.get('kind')))
+def impl(name):
+    """The implementation module under test.  Normally the real pharmpy module; for sensitivity tests
+    VERIF_C18_MUTANTS='{"<module name>": "<path of a mutated copy>"}' loads a scratch copy of that one
+    source file under another module name (never touches /repo)."""
+    import importlib
+    import importlib.util
+    import os
+    import sys
+    if name in _impl_cache:
+        return _impl_cache[name]
+    muts = json.loads(os.environ.get('VERIF_C18_MUTANTS', '{}') or '{}')
+    if name in muts:
+        importlib.import_module(name)          # make sure the package context exists
+        alias = name + '_mutant'
+        spec = importlib.util.spec_from_file_location(alias, muts[name])
+        mod = importlib.util.module_from_spec(spec)
+        mod.__package__ = name.rsplit('.', 1)[0]
+        sys.modules[alias] = mod
+        spec.loader.exec_module(mod)
+        print(f'[C18] MUTANT in use for {name}: {muts[name]}', flush=True)
+    else:
+        mod = importlib.import_module(name)
+    _impl_cache[name] = mod
+    return mod
 
 
-def gen_specs(rng, tier):
-    return []
+def mutant_path(name):
+    import os
+    return json.loads(os.environ.get('VERIF_C18_MUTANTS', '{}') or '{}').get(name)
 
 
-def explain(ctx, spec, tag, tags):
-    return None
+def _c18():
+    from . import c18
+    return c18
 
 
-def regenerate_tables(ctx):
+# ------------------------------------------------------------------ T-tables: not_supported_combo
+class TranslatorRefused(Exception):
+    pass
+
+
+def translate_not_supported_combo(source_text):
+    """Fail-closed ast translator: finds `not_supported_combo = [ ((str|int,...),(str|int,...)), ... ]`
+    inside _is_allowed and returns it as a Python list of (tuple, tuple).  Anything unexpected refuses."""
+    tree = ast.parse(source_text)
+    fn = [n for n in tree.body if isinstance(n, ast.FunctionDef) and n.name == '_is_allowed']
+    if len(fn) != 1:
+        raise TranslatorRefused('_is_allowed not found exactly once')
+    assigns = [n for n in ast.walk(fn[0]) if isinstance(n, ast.Assign)
+               and len(n.targets) == 1 and isinstance(n.targets[0], ast.Name) and n.targets[0].id == 'not_supported_combo']
+    if len(assigns) != 1:
+        raise TranslatorRefused('not_supported_combo not assigned exactly once')
+    val = assigns[0].value
+    if not isinstance(val, ast.List):
+        raise TranslatorRefused('not_supported_combo is not a list literal')
+
+    def tup(node):
+        if not isinstance(node, ast.Tuple) or not node.elts:
+            raise TranslatorRefused('entry component is not a non-empty tuple literal')
+        out = []
+        for e in node.elts:
+            if isinstance(e, ast.Constant) and type(e.value) in (str, int):
+                out.append(e.value)
+            else:
+                raise TranslatorRefused(f'unsupported tuple element {ast.dump(e)}')
+        return tuple(out)
+
+    table = []
+    for entry in val.elts:
+        if not isinstance(entry, ast.Tuple) or len(entry.elts) != 2:
+            raise TranslatorRefused('entry is not a pair')
+        table.append((tup(entry.elts[0]), tup(entry.elts[1])))
+    # the loop that consumes the table must be the known one (prefix match in both orientations)
+    src = ast.get_source_segment(source_text, fn[0])
+    want = ("(feat_current[: len(feat_1)] == feat_1 and feat[: len(feat_2)] == feat_2)", "or (feat_current[: len(feat_2)] == feat_2 and feat[: len(feat_1)] == feat_1)")
+    flat = re.sub(r'\s+', ' ', src)
+    for w in want:
+        if re.sub(r'\s+', ' ', w) not in flat:
+            raise TranslatorRefused('the loop over not_supported_combo changed shape')
+    return table
+
+
+def table_to_coq(table):
+    c18 = _c18()
+
+    def atom(a):
+        if isinstance(a, int):
+            return f'AI ({a})'
+        if a not in c18.STR_CODES:
+            raise TranslatorRefused(f'string {a!r} has no code in the table of Model.v')
+        return f'AS {c18.STR_CODES[a]}'
+
+    def key(k):
+        return '[' + '; '.join(atom(a) for a in k) + ']'
+    return '[' + ';\n   '.join(f'({key(a)}, {key(b)})' for a, b in table) + ']'
+
+
+WILDCARD_TABLES = [
+    ('absorption.py', 'ABSORPTION_WILDCARD', 'w_absorption'), ('elimination.py', 'ELIMINATION_WILDCARD', 'w_elimination'),
+    ('lagtime.py', 'LAGTIME_WILDCARD', 'w_lagtime'), ('direct_effect.py', 'DIRECT_EFFECT_WILDCARD', 'w_direct_effect'),
+    ('effect_comp.py', 'EFFECTCOMP_WILDCARD', 'w_effect_comp'), ('metabolite.py', 'METABOLITE_WILDCARD', 'w_metabolite'),
+    ('transits.py', 'TRANSITS_DEPOT_WILDCARD', 'w_depot'), ('peripherals.py', 'PERIPHERALS_MODES_WILDCARD', 'w_periph_modes'),
+    ('indirect_effect.py', 'INDIRECT_EFFECT_MODES_WILDCARD', 'w_indirect_modes'),
+    ('indirect_effect.py', 'INDIRECT_EFFECT_PRODUCTION_WILDCARD', 'w_production'),
+]
+
+
+def translate_wildcard_tuple(source_text, varname):
+    """Fail-closed: module level `NAME = tuple([Name(x) for x in ('A', 'B', ...)])` -> ['A', 'B', ...]."""
+    tree = ast.parse(source_text)
+    assigns = [n for n in tree.body if isinstance(n, ast.Assign) and len(n.targets) == 1
+               and isinstance(n.targets[0], ast.Name) and n.targets[0].id == varname]
+    if len(assigns) != 1:
+        raise TranslatorRefused(f'{varname} not assigned exactly once at module level')
+    v = assigns[0].value
+    ok = (isinstance(v, ast.Call) and isinstance(v.func, ast.Name) and v.func.id == 'tuple' and len(v.args) == 1 and not v.keywords
+          and isinstance(v.args[0], ast.ListComp) and len(v.args[0].generators) == 1)
+    if not ok:
+        raise TranslatorRefused(f'{varname} is not tuple([... for x in (...)])')
+    comp = v.args[0]
+    gen = comp.generators[0]
+    elt = comp.elt
+    ok = (isinstance(elt, ast.Call) and isinstance(elt.func, ast.Name) and elt.func.id == 'Name' and len(elt.args) == 1
+          and isinstance(elt.args[0], ast.Name) and isinstance(gen.target, ast.Name) and elt.args[0].id == gen.target.id
+          and not gen.ifs and not gen.is_async and isinstance(gen.iter, ast.Tuple))
+    if not ok:
+        raise TranslatorRefused(f'{varname}: unexpected comprehension shape')
+    out = []
+    for e in gen.iter.elts:
+        if isinstance(e, ast.Constant) and isinstance(e.value, str):
+            out.append(e.value)
+        else:
+            raise TranslatorRefused(f'{varname}: non-string element')
+    return out
+
+
+def regenerate_wildcards(ctx):
+    """build/gen/C18/Wildcards.v: the *_WILDCARD tuples of the statement classes are the lists the model uses."""
+    c18 = _c18()
+    f = GEN / 'Wildcards.v'
+    _gen_files.append(f)
+    ctx.obligations += len(WILDCARD_TABLES)
+    lines = ['(* generated by harness/props/c18_mfl.py from src/pharmpy/tools/mfl/statement/feature/*.py -- do not edit *)',
+             'From Coq Require Import List NArith.', 'From PV Require Import C18.Model C18.MflModel.', 'Import ListNotations.']
+    try:
+        for fname, var, coqname in WILDCARD_TABLES:
+            path = mutant_path('pharmpy.tools.mfl.statement.feature.' + fname[:-3]) or (REPO / 'src/pharmpy/tools/mfl/statement/feature' / fname)
+            names = translate_wildcard_tuple(Path(path).read_text(), var)
+            codes = []
+            for n in names:
+                if n in c18.STR_CODES:
+                    codes.append(c18.STR_CODES[n])
+                elif n in MFL_CODES:
+                    codes.append(MFL_CODES[n])
+                else:
+                    raise TranslatorRefused(f'{var}: name {n!r} has no code')
+            lines.append(f"Lemma {coqname}_is_source : [{'; '.join(str(c) for c in codes)}]%N = {coqname}.  (* {var} = {names} *)")
+            lines.append('Proof. reflexivity. Qed.')
+    except TranslatorRefused as e:
+        print(f'TRANSLATOR-REFUSED C18 wildcard tables: {e}', flush=True)
+        ctx.broken.append(f'TRANSLATOR-REFUSED wildcard tables: {e}')
+        return False
+    f.write_text('\n'.join(lines) + '\n')
+    rc, out = coqc_file(f)
+    if rc != 0:
+        m = re.search(r'line (\d+)', out)
+        ctx.broken.append('a regenerated *_WILDCARD table differs from the list the model uses: ' + out[-300:].replace('\n', ' '))
+        return False
+    ctx.discharged += len(WILDCARD_TABLES)
     return True
 
 
+_gen_files = []
+
+
+def regenerate_tables(ctx, source_path=None):
+    """Regenerates build/gen/C18/Table.v from the current source and compiles it: its obligations say
+    that the literal table in the source IS the table the theorems are about."""
+    GEN.mkdir(parents=True, exist_ok=True)
+    source_path = source_path or mutant_path('pharmpy.tools.modelsearch.algorithms')
+    src = Path(source_path) if source_path else REPO / 'src/pharmpy/tools/modelsearch/algorithms.py'
+    f = GEN / 'Table.v'
+    _gen_files[:] = [f]
+    ctx.obligations += 2
+    try:
+        table = translate_not_supported_combo(src.read_text())
+        body = table_to_coq(table)
+    except TranslatorRefused as e:
+        print(f'TRANSLATOR-REFUSED C18 not_supported_combo: {e}', flush=True)
+        ctx.broken.append(f'TRANSLATOR-REFUSED not_supported_combo: {e}')
+        return False
+    f.write_text(
+        '(* generated by harness/props/c18_mfl.py from src/pharmpy/tools/modelsearch/algorithms.py — do not edit *)\n'
+        'From Coq Require Import List ZArith NArith Bool.\nFrom PV Require Import C18.Model.\nImport ListNotations.\n'
+        f'Definition not_supported_combo_src : combo_table :=\n  {body}.\n'
+        'Lemma table_is_verified_table : not_supported_combo_src = not_supported_combo.\nProof. reflexivity. Qed.\n'
+        '(* no entry can match a PERIPHERALS key (the table check is skipped for those) *)\n'
+        'Lemma table_no_peripherals : forallb (fun e => negb (is_prefix (fst e) [AS s_PERIPHERALS]) && negb (is_prefix [AS s_PERIPHERALS] (fst e))\n'
+        '   && negb (is_prefix (snd e) [AS s_PERIPHERALS]) && negb (is_prefix [AS s_PERIPHERALS] (snd e))) not_supported_combo_src = true.\n'
+        'Proof. vm_compute. reflexivity. Qed.\n')
+    rc, out = coqc_file(f)
+    ctx.coverage['translator_sha'] = {'not_supported_combo': hashlib.sha256(src.read_bytes()).hexdigest()[:16]}
+    ctx.coverage['not_supported_combo_entries'] = len(table)
+    if rc != 0:
+        ctx.broken.append('regenerated not_supported_combo differs from the verified table (obligation table_is_verified_table fails): '
+                          + json.dumps(table))
+        ctx.coverage['regenerated_table'] = table
+        return False
+    ctx.discharged += 2
+    return regenerate_wildcards(ctx)
+
+
 def generated_vfiles():
-    return []
+    return list(_gen_files)
+
+
+# ------------------------------------------------------------------ feature dictionaries for the search algorithms
+POOL = {
+    'ABSORPTION': ['FO', 'ZO', 'SEQ-ZO-FO', 'INST'],
+    'ELIMINATION': ['FO', 'ZO', 'MM', 'MIX-FO-MM'],
+    'LAGTIME': ['OFF', 'ON'],
+}
+
+
+def gen_funcs_spec(rng, max_keys=5, contract=True):
+    """A search space as an MFL string + which generated keys to drop (the base model's) + whether to
+    sort like modelsearch.tool.filter_mfl_statements."""
+    parts = []
+    cats = rng.sample(['ABSORPTION', 'ELIMINATION', 'LAGTIME', 'TRANSITS', 'PERIPHERALS'], rng.choice([2, 3, 3, 4, 5]))
+    for c in cats:
+        if c in POOL:
+            modes = rng.sample(POOL[c], rng.choice([1, 1, 2, 2, 3]) if c != 'LAGTIME' else rng.choice([1, 2]))
+            parts.append(f"{c}([{','.join(modes)}])")
+        elif c == 'TRANSITS':
+            counts = sorted(rng.sample([0, 1, 2, 3, 10], rng.choice([1, 1, 2])))
+            depot = rng.choice(['DEPOT', 'NODEPOT', '*', 'DEPOT'])
+            parts.append(f"TRANSITS([{','.join(map(str, counts))}],{depot})")
+        else:
+            counts = rng.sample([0, 1, 2, 3, 4], rng.choice([1, 2, 2, 3, 3, 4]))
+            # modelsearch hands the algorithms the DRUG peripherals sorted by count (filter('pk') +
+            # filter_mfl_statements); anything else only goes to the function-level _is_allowed tie
+            if contract or rng.random() < 0.5:
+                counts = sorted(counts)
+            mode = '' if contract else rng.choice(['', '', '', ',MET', ',*'])
+            parts.append(f"PERIPHERALS([{','.join(map(str, counts))}]{mode})")
+    return {'mfl': ';'.join(parts), 'drop': rng.choice(['base', 'base', 'none', 'random']),
+            'sort': rng.random() < 0.6, 'seed': rng.randrange(10 ** 6), 'max_keys': max_keys}
+
+
+def build_funcs(spec):
+    """mfl string -> the real dict of feature keys -> functions, reduced as the tool does."""
+    import random
+
+    from pharmpy.tools.mfl.parse import ModelFeatures
+    mf = ModelFeatures.create_from_mfl_string(spec['mfl'])
+    funcs = mf.convert_to_funcs()
+    r = random.Random(spec['seed'])
+    keys = list(funcs)
+    if spec['drop'] == 'base':
+        base = {('ABSORPTION', 'FO'), ('ABSORPTION', 'INST'), ('ELIMINATION', 'FO'), ('LAGTIME', 'OFF'), ('TRANSITS', 0, 'DEPOT'),
+                ('PERIPHERALS', 0)}
+        keys = [k for k in keys if k not in base]
+    elif spec['drop'] == 'random':
+        keys = [k for k in keys if r.random() < 0.7]
+    while len(keys) > spec.get('max_keys', 5):
+        keys.pop(r.randrange(len(keys)))
+    res = {k: funcs[k] for k in keys}
+    if spec['sort']:
+        res = {k: v for k, v in sorted(res.items(), key=lambda x: (x[0][0], x[0][1]))}
+    return res
+
+
+def keys_term(keys, codes):
+    c18 = _c18()
+    return ct.lst([c18.key_term(k, codes) for k in keys])
+
+
+def _run_no(name):
+    m = re.fullmatch(r'[a-z]+_run(\d+)', name)
+    assert m, name
+    return int(m.group(1))
+
+
+def observe_step(spec):
+    alg = impl('pharmpy.tools.modelsearch.algorithms')
+    c18 = _c18()
+    funcs = build_funcs(spec)
+    keys = list(funcs)
+    codes = c18.Codes()
+    wf, model_tasks = alg.exhaustive_stepwise(funcs, 'no_add')
+    out = []
+    for t in model_tasks:
+        (create,) = wf.get_predecessors(t)
+        assert create.function is alg.create_candidate_stepwise
+        no = _run_no(create.task_input[0])
+        path = []
+        cur = create
+        while True:
+            path.append(tuple(cur.task_input[1]))
+            preds = wf.get_predecessors(cur)
+            if not preds:
+                break
+            (fit,) = preds
+            (cur,) = wf.get_predecessors(fit)
+        path.reverse()
+        out.append((no, path))
+    # no task other than candidate creation + fit
+    assert len(wf.tasks) == 2 * len(model_tasks)
+    ot = ct.lst([ct.pair(ct.nat(no), keys_term(p, codes)) for no, p in out])
+    return (f"(CStep {keys_term(keys, codes)} {ot})",
+            {'n_out': len(out), 'n': len(keys), 'maxdepth': max([len(p) for _, p in out] or [0]),
+             'periph': sum(1 for k in keys if k[0] == 'PERIPHERALS')})
+
+
+def observe_exh(spec):
+    alg = impl('pharmpy.tools.modelsearch.algorithms')
+    c18 = _c18()
+    funcs = build_funcs(spec)
+    keys = list(funcs)
+    codes = c18.Codes()
+    wf, model_tasks = alg.exhaustive(funcs, 'no_add')
+    out = []
+    unordered = False
+    for t in wf.tasks:
+        if t.function is alg.create_candidate_exhaustive:
+            assert not wf.get_predecessors(t)
+            combo = [tuple(k) for k in t.task_input[1]]
+            fs = t.task_input[2]
+            # the functions handed to the candidate are those of the combination ...
+            assert set(map(id, fs)) == {id(funcs[k]) for k in combo}
+            # ... but create_candidate_exhaustive zips them with the keys: they must come in the keys' order
+            if len(combo) > 1 and not (isinstance(fs, (list, tuple)) and all(f is funcs[k] for k, f in zip(combo, fs))):
+                unordered = True
+            out.append((_run_no(t.task_input[0]), combo))
+    assert len(out) == len(model_tasks) and len(wf.tasks) == 2 * len(out)
+    ot = ct.lst([ct.pair(ct.nat(no), keys_term(c, codes)) for no, c in out])
+    return f"(CExh {keys_term(keys, codes)} {ot} {ct.boolean(unordered)})", {'n_out': len(out), 'n': len(keys)}
+
+
+def observe_red(spec):
+    alg = impl('pharmpy.tools.modelsearch.algorithms')
+    c18 = _c18()
+    funcs = build_funcs(spec)
+    keys = list(funcs)
+    codes = c18.Codes()
+    wf, model_tasks = alg.reduced_stepwise(funcs, 'no_add')
+    tasks = wf.tasks
+    create_no = {}
+    coll_ix = {}
+    for t in tasks:
+        if t.function is alg.create_candidate_stepwise:
+            create_no[t] = _run_no(t.task_input[0])
+        elif t.function is alg.get_best_model:
+            coll_ix[t] = len(coll_ix)
+
+    def fit_no(fit):
+        (c,) = wf.get_predecessors(fit)
+        return create_no[c]
+
+    def upstream_feats(t):
+        seen, stack, feats = set(), list(wf.get_predecessors(t)), []
+        while stack:
+            u = stack.pop()
+            if id(u) in seen:
+                continue
+            seen.add(id(u))
+            if u in create_no:
+                f = tuple(u.task_input[1])
+                if f not in feats:
+                    feats.append(f)
+            stack.extend(wf.get_predecessors(u))
+        return feats
+
+    def pref(t):
+        if t in coll_ix:
+            return f'(PColl {coll_ix[t]})'
+        return f'(PCand {fit_no(t)})'
+
+    out = []
+    for t in tasks:
+        if t in create_no:
+            preds = wf.get_predecessors(t)
+            assert len(preds) <= 1
+            pr = 'PRoot' if not preds else pref(preds[0])
+            out.append((create_no[t], pr, upstream_feats(t), tuple(t.task_input[1])))
+    assert [o[0] for o in out] == sorted(o[0] for o in out)
+    assert len(model_tasks) == len(out)
+    colls = [[pref(m) for m in wf.get_predecessors(t)] for t in tasks if t in coll_ix]
+    ot = ct.lst([ct.tup(ct.nat(no), pr, keys_term(ps, codes), c18.key_term(f, codes)) for no, pr, ps, f in out])
+    return (f"(CRed {keys_term(keys, codes)} {ot} {ct.lst([ct.lst(c) for c in colls])})",
+            {'n_out': len(out), 'n': len(keys), 'collectors': len(colls),
+             'periph': sum(1 for k in keys if k[0] == 'PERIPHERALS')})
+
+
+def observe_allowed(spec):
+    import random
+
+    alg = impl('pharmpy.tools.modelsearch.algorithms')
+    c18 = _c18()
+    funcs = build_funcs(spec)
+    keys = list(funcs)
+    codes = c18.Codes()
+    r = random.Random(spec['seed'] + 1)
+    qs = []
+    for _ in range(spec.get('nq', 40)):
+        if not keys:
+            break
+        cur = r.choice(keys)
+        prev = r.sample(keys, r.randrange(0, len(keys) + 1))
+        res = alg._is_allowed(cur, funcs[cur], prev, funcs)
+        assert isinstance(res, bool)
+        qs.append(ct.tup(c18.key_term(cur, codes), keys_term(prev, codes), ct.boolean(res)))
+    return f"(CAllowed {keys_term(keys, codes)} {ct.lst(qs)})", {'n_out': len(qs), 'n': len(keys)}
+
+
+# ------------------------------------------------------------------ iivsearch brute-force builders
+_model_cache = {}
+
+
+def build_iiv_model(spec):
+    key = json.dumps([spec['periph'], spec['remove'], spec['joint'], spec['fix']])
+    if key in _model_cache:
+        return _model_cache[key]
+    from pharmpy.modeling import (add_peripheral_compartment, add_pk_iiv, create_joint_distribution,
+                                  fix_parameters, load_example_model, remove_iiv)
+    m = load_example_model('pheno')
+    for _ in range(spec['periph']):
+        m = add_peripheral_compartment(m)
+    if spec['periph']:
+        m = add_pk_iiv(m)
+    if spec['remove']:
+        m = remove_iiv(m, spec['remove'])
+    for j in spec['joint']:
+        m = create_joint_distribution(m, j)
+    if spec['fix']:
+        m = fix_parameters(m, spec['fix'])
+    _model_cache[key] = m
+    return m
+
+
+def sterm_list(l):
+    c18 = _c18()
+    return '[' + ';'.join(c18.sterm(x) for x in l) + ']%N'
+
+
+def sterm_list2(ll):
+    c18 = _c18()
+    return '[' + ';'.join('[' + ';'.join(c18.sterm(x) for x in l) + ']' for l in ll) + ']%N'
+
+
+def observe_iiv(spec):
+    alg = impl('pharmpy.tools.iivsearch.algorithms')
+    m = build_iiv_model(spec)
+    iivs = m.random_variables.iiv
+    fixed = alg._get_fixed_etas(m)
+    names = [n for n in iivs.names if n not in fixed]
+    off = spec['offset']
+    if spec['kind'] == 'iivblock':
+        wf = alg.td_exhaustive_block_structure(m, index_offset=off)
+        base = [[n for n in d.names if n not in fixed] for d in iivs]
+        base = [b for b in base if b]
+        out = [(_run_no(t.task_input[0]), [list(b) for b in t.task_input[1]]) for t in wf.tasks
+               if t.function is alg.create_block_structure_candidate_entry]
+        assert len(wf.tasks) == 2 * len(out)
+        ot = '[' + ';'.join(f'({ct.nat(no)}, {sterm_list2(p)})' for no, p in out) + ']'
+        return (f"(CIivBlock {sterm_list(names)} {sterm_list2(base)} {ct.nat(off)} {ot})",
+                {'n_out': len(out), 'n': len(names), 'fixed': len(fixed)})
+    wf = alg.td_exhaustive_no_of_etas(m, index_offset=off)
+    out = [(_run_no(t.task_input[0]), list(t.task_input[1])) for t in wf.tasks
+           if t.function is alg.create_no_of_etas_candidate_entry]
+    assert len(wf.tasks) == 2 * len(out)
+    ot = '[' + ';'.join(f'({ct.nat(no)}, {sterm_list(p)})' for no, p in out) + ']'
+    return (f"(CIivSub {sterm_list(names)} {ct.nat(off)} {ot})", {'n_out': len(out), 'n': len(names), 'fixed': len(fixed)})
+
+
+IIV_SHAPES = [
+    {'periph': 0, 'remove': [], 'joint': [], 'fix': []},
+    {'periph': 0, 'remove': [], 'joint': [['ETA_CL', 'ETA_VC']], 'fix': []},
+    {'periph': 1, 'remove': [], 'joint': [], 'fix': []},
+    {'periph': 1, 'remove': [], 'joint': [['ETA_CL', 'ETA_VC']], 'fix': []},
+    {'periph': 1, 'remove': [], 'joint': [['ETA_CL', 'ETA_VC'], ['ETA_QP1', 'ETA_VP1']], 'fix': []},
+    {'periph': 1, 'remove': [], 'joint': [['ETA_CL', 'ETA_VC', 'ETA_QP1', 'ETA_VP1']], 'fix': []},
+    {'periph': 1, 'remove': ['ETA_VP1'], 'joint': [['ETA_VC', 'ETA_QP1']], 'fix': []},
+    {'periph': 1, 'remove': [], 'joint': [['ETA_CL', 'ETA_VC']], 'fix': ['IIV_QP1']},
+    {'periph': 2, 'remove': ['ETA_QP2'], 'joint': [['ETA_CL', 'ETA_VP2']], 'fix': []},
+    {'periph': 2, 'remove': [], 'joint': [['ETA_VC', 'ETA_QP1'], ['ETA_CL', 'ETA_VP2']], 'fix': []},
+]
+
+
+# ------------------------------------------------------------------ dispatch
+class ImplTimeout(Exception):
+    pass
+
+
+def with_time_limit(seconds, fn, *args):
+    """The builders are proved to end after |keys|+1 passes in the model; an implementation that does
+    not come back is reported (with the spec) instead of hanging the check."""
+    import signal
+
+    def handler(signum, frame):
+        raise ImplTimeout()
+    old = signal.signal(signal.SIGALRM, handler)
+    signal.alarm(seconds)
+    try:
+        return fn(*args)
+    finally:
+        signal.alarm(0)
+        signal.signal(signal.SIGALRM, old)
+
+
+def observe(spec):
+    kind = spec['kind']
+    if kind == 'step':
+        return observe_step(spec)
+    if kind == 'red':
+        return observe_red(spec)
+    if kind == 'exh':
+        return observe_exh(spec)
+    if kind in ('iivblock', 'iivsub'):
+        return observe_iiv(spec)
+    if kind == 'mfl':
+        return observe_mfl(spec)
+    if kind == 'teq':
+        return observe_teq(spec)
+    if kind == 'lnt':
+        return observe_lnt(spec)
+    if kind == 'allowed':
+        return observe_allowed(spec)
+    raise ValueError('unknown spec kind ' + str(kind))
+
+
+def gen_specs(rng, tier):
+    specs = []
+    n = 40 if tier == 'quick' else 400
+    for _ in range(n):
+        s = gen_funcs_spec(rng, max_keys=rng.choice([3, 4, 4, 5]))
+        specs.append({'kind': 'step', **s})
+    for _ in range(n):
+        s = gen_funcs_spec(rng, max_keys=rng.choice([3, 4, 5, 5, 6]))
+        specs.append({'kind': 'red', **s})
+    for _ in range(n):
+        s = gen_funcs_spec(rng, max_keys=8, contract=False)
+        specs.append({'kind': 'allowed', 'nq': 40, **s})
+    for _ in range(n // 2):
+        s = gen_funcs_spec(rng, max_keys=rng.choice([4, 6, 8, 9]))
+        specs.append({'kind': 'exh', **s})
+    for fam, k in (('pk', 60), ('pk_wild', 30), ('cov', 50), ('pd', 40), ('mixed', 40)):
+        for _ in range(k if tier == 'quick' else 12 * k):
+            specs.append(gen_mfl_spec(rng, fam))
+    for _ in range(20 if tier == 'quick' else 200):
+        specs.append(gen_teq_spec(rng))
+    for _ in range(60 if tier == 'quick' else 800):
+        specs.append(gen_lnt_spec(rng))
+    shapes = IIV_SHAPES[:7] if tier == 'quick' else IIV_SHAPES
+    for sh in shapes:
+        specs.append({'kind': 'iivblock', 'offset': rng.choice([0, 0, 3, 17]), **sh})
+        specs.append({'kind': 'iivsub', 'offset': rng.choice([0, 0, 5]), **sh})
+    return specs
+
+
+FINDING_BY_TAG = {52: ('C18-PERIPH-ORDER', 201), 53: ('C18-PERIPH-ORDER', 201), 55: ('C18-REDUCED-SINGLE-GROUP', 202),
+                  42: ('C18-EXHAUSTIVE-SET-ZIP', 204), 71: ('C18-LET-BYPASSES-VALIDATION', 217),
+                  78: ('C18-TRANSITS-EQ-TUPLE', 218)}
+GUARD_TAGS = (201, 202, 204, 210, 211, 212, 213, 214, 215, 217, 218, 219)
+# MFL algebra: oracle tag -> candidate (guard tag, finding) pairs, first guard that is false wins
+MFL_FINDINGS = {
+    74: [(211, 'C18-EQ-COVARIATE-ONEWAY'), (212, 'C18-EQ-TUPLES-STRUCTURAL'), (213, 'C18-EQ-IGNORES-METABOLITE')],
+    75: [(214, 'C18-SUBSET-TRANSITS-PRODUCT')],
+    761: [(210, 'C18-MFL-WILDCARD')],
+    762: [(210, 'C18-MFL-WILDCARD'), (215, 'C18-SUB-PD-EMPTY')],
+    763: [(210, 'C18-MFL-WILDCARD')], 764: [(210, 'C18-MFL-WILDCARD')], 765: [(210, 'C18-MFL-WILDCARD')],
+    766: [(210, 'C18-MFL-WILDCARD')], 77: [(219, 'C18-LNT-PK-INCLUDES-MET')],
+}
+
+
+def explain(ctx, spec, tag, tags):
+    """An oracle failure is a known finding when the faithful model explains it (no correspondence tag),
+    the guard conjunct of that finding is false on this input, and the finding is listed open."""
+    if set(tags) & set(_c18().CORR):
+        return None
+    if tag in FINDING_BY_TAG:
+        fid, guard_tag = FINDING_BY_TAG[tag]
+        if guard_tag in tags and ctx.open_finding(fid):
+            return fid
+    for guard_tag, fid in MFL_FINDINGS.get(tag, []):
+        if guard_tag in tags and ctx.open_finding(fid):
+            return fid
+    return None
 
 
 def distribution(kept, verdicts, infos):
-    return {}
+    d = {'stepwise_guard_periph_false': 0, 'reduced_single_group': 0, 'stepwise_max_depth': 0, 'reduced_collectors': 0}
+    for s, v, i in zip(kept, verdicts, infos):
+        if s['kind'] in ('step', 'red') and 201 in v:
+            d['stepwise_guard_periph_false'] += 1
+        if s['kind'] == 'red' and 202 in v:
+            d['reduced_single_group'] += 1
+        if s['kind'] == 'step':
+            d['stepwise_max_depth'] = max(d['stepwise_max_depth'], i.get('maxdepth', 0))
+        if s['kind'] == 'red':
+            d['reduced_collectors'] += i.get('collectors', 0)
+    fam, errs, guards = {}, {}, {}
+    names = {210: 'g_no_wildcard', 211: 'g_cov_symmetric', 212: 'g_tuples_canonical', 213: 'g_same_metabolite',
+             214: 'g_transits_product', 215: 'g_pd_difference', 216: 'contain_subset_outside_pk_domain',
+             217: 'g_let_not_forced', 218: 'g_transits_stmt_equal', 219: 'g_no_met_peripherals', 204: 'all_same_cat'}
+    for s, v, i in zip(kept, verdicts, infos):
+        if s['kind'] in ('mfl', 'lnt', 'teq', 'exh'):
+            if s['kind'] == 'mfl':
+                fam[s.get('family', '?')] = fam.get(s.get('family', '?'), 0) + 1
+            for op, e in (i.get('errors') or {}).items():
+                errs[f'{op}:{e}'] = errs.get(f'{op}:{e}', 0) + 1
+            for t in set(v):
+                if t in names:
+                    guards[names[t]] = guards.get(names[t], 0) + 1
+    d['mfl_families'] = fam
+    d['mfl_implementation_errors'] = errs
+    d['guard_false_counts'] = guards
+    return d
+
+
+# ------------------------------------------------------------------ the search-space algebra (ModelFeatures)
+MFL_CODES = {
+    'LINEAR': 32, 'EMAX': 33, 'SIGMOID': 34, 'PSC': 35, 'BASIC': 36, 'DEGRADATION': 37, 'PRODUCTION': 38,
+    'LIN': 40, 'PIECE_LIN': 41, 'EXP': 42, 'POW': 43,
+}
+
+
+class MflCodes:
+    def __init__(self):
+        self.extra = {}
+
+    def code(self, s):
+        c18 = _c18()
+        if s in c18.STR_CODES:
+            return c18.STR_CODES[s]
+        if s in MFL_CODES:
+            return MFL_CODES[s]
+        if s not in self.extra:
+            self.extra[s] = 1000 + len(self.extra)
+        return self.extra[s]
+
+
+class Unexportable(Exception):
+    pass
+
+
+class Rejected(Exception):
+    """the real parser refuses the generated text with its documented ValueError"""
+
+
+def _nlist(xs):
+    return '[' + ';'.join(str(int(x)) for x in xs) + ']%N'
+
+
+def modes_term(m, codes, ints=False):
+    from pharmpy.tools.mfl.statement.feature.symbols import Name, Wildcard
+    if m is None:
+        return 'MNone'
+    if isinstance(m, Wildcard):
+        return 'MWild'
+    if isinstance(m, tuple):
+        out = []
+        for x in m:
+            if ints:
+                if not isinstance(x, int) or isinstance(x, bool) or x < 0:
+                    raise Unexportable(f'count {x!r}')
+                out.append(x)
+            else:
+                if not isinstance(x, Name):
+                    raise Unexportable(f'mode {x!r}')
+                out.append(codes.code(x.name))
+        return f'(MList {_nlist(out)})'
+    raise Unexportable(f'modes attribute {m!r}')
+
+
+def opt_modes_term(st, codes):
+    return 'None' if st is None else f'(Some {modes_term(st.modes, codes)})'
+
+
+def mf_term(mf, codes):
+    from pharmpy.tools.mfl.statement.feature.covariate import Ref
+    from pharmpy.tools.mfl.statement.feature.symbols import Wildcard
+    tr = ct.lst([f'(mkP {modes_term(t.counts, codes, ints=True)} {modes_term(t.depot, codes)})' for t in mf.transits])
+    pe = ct.lst([f'(mkP {modes_term(p.counts, codes, ints=True)} {modes_term(p.modes, codes)})' for p in mf.peripherals])
+    ie = ct.lst([f'(mkP {modes_term(i.modes, codes)} {modes_term(i.production, codes)})' for i in mf.indirect_effect])
+    cvs = []
+    for c in mf.covariate:
+        if isinstance(c.parameter, (Ref, Wildcard)) or isinstance(c.covariate, (Ref, Wildcard)):
+            raise Unexportable('covariate reference / wildcard')
+        fp = 'MWild' if isinstance(c.fp, Wildcard) else f'(MList {_nlist([codes.code(f) for f in c.fp])})'
+        cvs.append(f'(mkC {_nlist([codes.code(p) for p in c.parameter])} {_nlist([codes.code(v) for v in c.covariate])} {fp} '
+                   f'{codes.code("op" + c.op)}%N {ct.boolean(c.optional.option)})')
+    return (f'(mkMF {opt_modes_term(mf.absorption, codes)} {opt_modes_term(mf.elimination, codes)} {tr} {pe} '
+            f'{opt_modes_term(mf.lagtime, codes)} {ct.lst(cvs)} {opt_modes_term(mf.direct_effect, codes)} '
+            f'{opt_modes_term(mf.effect_comp, codes)} {ie} {opt_modes_term(mf.metabolite, codes)})')
+
+
+def obs_term(fn, to_term):
+    try:
+        r = fn()
+    except TypeError:
+        return 'OTypeError', 'TypeError'
+    except AttributeError:
+        return 'OAttributeError', 'AttributeError'
+    except Exception as e:  # any other exception class
+        return 'OOther', type(e).__name__
+    try:
+        return f'(OOk {to_term(r)})', 'ok'
+    except Unexportable as e:
+        return 'OOther', f'unexportable result: {e}'
+
+
+def bool_term(r):
+    if r is True or r is False:
+        return ct.boolean(r)
+    raise Unexportable(f'non-bool {r!r}')
+
+
+def roundtrip_code(parse, mf):
+    """parse(stringify(parse(s))) == parse(s): compared attribute by attribute (dataclass equality of the
+    statement tuples would use the classes' own __eq__), and the printed form is a fixed point.
+    0 = holds, 1 = the parser refuses the printed form (ValueError), 2 = anything else."""
+    try:
+        s = repr(mf)
+        r = parse(s, True)
+        return 0 if (attrs_key(r) == attrs_key(mf) and repr(r) == s) else 2
+    except ValueError:
+        return 1
+    except Exception:
+        return 2
+
+
+def vstmts_term(parse, text, codes):
+    """the COVARIATE statements of the raw parse, as validate_mfl_list sees them, with the (parameter,
+    covariate) pairs they stand for after LET substitution"""
+    from pharmpy.tools.mfl.statement.definition import Let
+    from pharmpy.tools.mfl.statement.feature.covariate import Covariate, Ref
+    stmts = parse(text, False)
+    lets = {s.name: s.value for s in stmts if isinstance(s, Let)}
+    out = []
+    for s in stmts:
+        if isinstance(s, Covariate):
+            isref = isinstance(s.parameter, Ref) or isinstance(s.covariate, Ref)
+            par = lets.get(s.parameter.name, ()) if isinstance(s.parameter, Ref) else s.parameter
+            cov = lets.get(s.covariate.name, ()) if isinstance(s.covariate, Ref) else s.covariate
+            if not isinstance(par, tuple) or not isinstance(cov, tuple):
+                raise Unexportable('covariate wildcard')
+            pairs = '[' + ';'.join(f'({codes.code(p)}, {codes.code(c)})' for p in par for c in cov) + ']%N'
+            out.append(f'(mkV {ct.boolean(isref)} {ct.boolean(not s.optional.option)} {pairs})')
+    return ct.lst(out)
+
+
+def attrs_key(mf):
+    def st(x):
+        if x is None:
+            return None
+        d = {}
+        for k, v in vars(x).items():
+            d[k] = repr(v)
+        return (type(x).__name__, tuple(sorted(d.items())))
+    return (st(mf.absorption), st(mf.elimination), tuple(st(t) for t in mf.transits), tuple(st(p) for p in mf.peripherals),
+            st(mf.lagtime), tuple(st(c) for c in mf.covariate), st(mf.direct_effect), st(mf.effect_comp),
+            tuple(st(i) for i in mf.indirect_effect), st(mf.metabolite), st(mf.allometry))
+
+
+def observe_teq(spec):
+    tm = impl('pharmpy.tools.mfl.statement.feature.transits')
+    from pharmpy.tools.mfl.statement.feature.symbols import Name, Wildcard
+    codes = MflCodes()
+
+    def mk(t):
+        counts, depot = t
+        return tm.Transits(tuple(counts), Wildcard() if depot == '*' else tuple(Name(d) for d in depot))
+    t1, t2 = mk(spec['t1']), mk(spec['t2'])
+    r = (t1 == t2)
+    is_pair = isinstance(r, tuple) and len(r) == 2 and all(isinstance(x, bool) for x in r)
+    c1, c2 = (r if is_pair else (False, False))
+    if not is_pair and not isinstance(r, bool):
+        raise Unexportable(f'Transits.__eq__ returned {r!r}')
+
+    def term(t):
+        return f'(mkP {modes_term(t.counts, codes, ints=True)} {modes_term(t.depot, codes)})'
+    return (f'(CTeq {term(t1)} {term(t2)} {ct.boolean(is_pair)} {ct.boolean(c1)} {ct.boolean(c2)} {ct.boolean(bool(r))})',
+            {'n_out': 1, 'n': 2})
+
+
+def gen_teq_spec(rng):
+    def t():
+        counts = rng.sample([0, 1, 2, 3], rng.choice([1, 2]))
+        depot = rng.choice([['DEPOT'], ['NODEPOT'], ['DEPOT', 'NODEPOT'], '*'])
+        return [counts, depot]
+    a = t()
+    b = [list(a[0]), a[1]] if rng.random() < 0.4 else t()
+    if rng.random() < 0.5:
+        rng.shuffle(b[0])
+    return {'kind': 'teq', 't1': a, 't2': b}
+
+
+def observe_lnt(spec):
+    pm = impl('pharmpy.tools.mfl.parse')
+    c18 = _c18()
+    codes = MflCodes()
+    a = pm.parse(spec['a'], True)
+    b = pm.parse(spec['b'], True)
+
+    def keys_term_of(d):
+        kc = c18.Codes()
+        return ct.lst([c18.key_term(k, kc) for k in d.keys()])
+    o, err = obs_term(lambda: a.least_number_of_transformations(b, tool='modelsearch'), keys_term_of)
+    info = {'n_out': 1, 'n': len(spec['b']), 'errors': {} if err == 'ok' else {'lnt': err}}
+    return f'(CLnt {mf_term(a, codes)}\n {mf_term(b, codes)}\n {o})', info
+
+
+def gen_lnt_spec(rng):
+    if rng.random() < 0.3:
+        # a whole space on the left: nothing is needed as soon as ONE of its modes is offered by the other space
+        a = render_denotation(rng, {k: v for k, v in gen_denotation(rng, 'pk').items() if k in ('A', 'E', 'L')} or {'A': ['FO', 'ZO']})
+        b = render_denotation(rng, gen_denotation(rng, 'pk'))
+        return {'kind': 'lnt', 'a': a, 'b': b or 'ABSORPTION(FO)'}
+    a = ';'.join([f"ABSORPTION({rng.choice(G_ABS)})", f"ELIMINATION({rng.choice(G_ELI)})",
+                  f"TRANSITS({rng.choice([0, 0, 1, 3])}{rng.choice(['', ',DEPOT', ',NODEPOT'])})",
+                  f"PERIPHERALS({rng.choice([0, 0, 1, 2])})", f"LAGTIME({rng.choice(G_LAG)})"])
+    fam = rng.choice(['pk', 'pk', 'pk', 'pk_wild'])
+    b = render_denotation(rng, gen_denotation(rng, fam), wild=(fam == 'pk_wild'))
+    return {'kind': 'lnt', 'a': a, 'b': b or 'ABSORPTION(FO)'}
+
+
+def observe_mfl(spec):
+    pm = impl('pharmpy.tools.mfl.parse')
+    parse = pm.parse
+    codes = MflCodes()
+    try:
+        a = parse(spec['a'], True)
+        b = parse(spec['b'], True)
+    except ValueError as e:      # validate_mfl_list: a covariate effect forced by several statements
+        raise Rejected(str(e)[:80])
+    ta, tb = mf_term(a, codes), mf_term(b, codes)
+    info = {'n_out': 5, 'n': len(spec['a']) + len(spec['b']), 'errors': {}}
+    add_t, e1 = obs_term(lambda: a + b, lambda r: mf_term(r, codes))
+    sub_t, e2 = obs_term(lambda: a - b, lambda r: mf_term(r, codes))
+    eq_t, e3 = obs_term(lambda: a == b, bool_term)
+    eqr_t, e4 = obs_term(lambda: b == a, bool_term)
+    sup_t, e5 = obs_term(lambda: a.contain_subset(b), bool_term)
+    for op, e in (('add', e1), ('sub', e2), ('eq', e3), ('eq_rev', e4), ('contain_subset', e5)):
+        if e != 'ok':
+            info['errors'][op] = e
+    term = (f'(CMfl (mkMflCase {ta}\n {tb}\n {add_t}\n {sub_t}\n {eq_t} {eqr_t} {sup_t} '
+            f"{vstmts_term(parse, spec['a'], codes)} {vstmts_term(parse, spec['b'], codes)} "
+            f'{ct.nat(roundtrip_code(parse, a))} {ct.nat(roundtrip_code(parse, b))}))')
+    return term, info
+
+
+# ---- generator of MFL strings from the grammar: a random denotation per category, rendered in a random style
+G_ABS = ['FO', 'ZO', 'SEQ-ZO-FO', 'INST']
+G_ELI = ['FO', 'ZO', 'MM', 'MIX-FO-MM']
+G_LAG = ['ON', 'OFF']
+G_PD = ['LINEAR', 'EMAX', 'SIGMOID']
+G_PROD = ['PRODUCTION', 'DEGRADATION']
+G_MET = ['PSC', 'BASIC']
+G_PAR = ['CL', 'VC', 'MAT', 'QP1']
+G_COV = ['WGT', 'AGE', 'SEX']
+G_FP = ['LIN', 'EXP', 'POW', 'PIECE_LIN', 'CAT', 'CAT2']
+
+
+def _subset(rng, pool, lo=1):
+    k = rng.randint(lo, len(pool))
+    return rng.sample(pool, k)
+
+
+def gen_denotation(rng, family):
+    d = {}
+    pk = family in ('pk', 'pk_wild', 'mixed')
+    if pk:
+        cats = rng.sample(['A', 'E', 'L', 'T', 'P'], rng.choice([1, 2, 3, 4, 5]))
+        if 'A' in cats:
+            d['A'] = _subset(rng, G_ABS)
+        if 'E' in cats:
+            d['E'] = _subset(rng, G_ELI)
+        if 'L' in cats:
+            d['L'] = _subset(rng, G_LAG)
+        if 'T' in cats:
+            d['T'] = [(c, dp) for dp in _subset(rng, ['DEPOT', 'NODEPOT']) for c in _subset(rng, [0, 1, 2, 3, 10])]
+        if 'P' in cats:
+            d['P'] = [(c, m) for m in _subset(rng, ['DRUG', 'MET'] if rng.random() < 0.4 else ['DRUG']) for c in _subset(rng, [0, 1, 2, 3])]
+    if family in ('cov', 'mixed'):
+        blocks = []
+        for _ in range(rng.choice([1, 1, 2, 3])):
+            blocks.append((sorted(_subset(rng, G_PAR)[:2]), sorted(_subset(rng, G_COV)[:2]), sorted(_subset(rng, G_FP)[:3]),
+                           rng.choice(['*', '*', '+']), rng.random() < 0.7))
+        d['C'] = blocks
+    if family in ('pd', 'mixed'):
+        cats = rng.sample(['D', 'F', 'I', 'M'], rng.choice([1, 2, 3, 4]))
+        if 'D' in cats:
+            d['D'] = _subset(rng, G_PD)
+        if 'F' in cats:
+            d['F'] = _subset(rng, G_PD)
+        if 'M' in cats:
+            d['M'] = _subset(rng, G_MET)
+        if 'I' in cats:
+            d['I'] = [(m, p) for p in _subset(rng, G_PROD) for m in _subset(rng, G_PD)]
+    return d
+
+
+def mutate_denotation(rng, d):
+    """a related denotation: same / one element dropped / one element added / a category dropped"""
+    import copy
+    d = copy.deepcopy(d)
+    if not d:
+        return d
+    how = rng.choice(['same', 'same', 'drop', 'drop', 'add', 'dropcat', 'flag'])
+    k = rng.choice(list(d))
+    pools = {'A': G_ABS, 'E': G_ELI, 'L': G_LAG, 'D': G_PD, 'F': G_PD, 'M': G_MET}
+    if how == 'drop':
+        if k == 'C':
+            if len(d['C']) > 1:
+                d['C'].pop(rng.randrange(len(d['C'])))
+            else:
+                p, c, f, o, t = d['C'][0]
+                if len(f) > 1:
+                    d['C'][0] = (p, c, f[:-1], o, t)
+        elif len(d[k]) > 1:
+            d[k].pop(rng.randrange(len(d[k])))
+    elif how == 'add':
+        if k in pools:
+            extra = [x for x in pools[k] if x not in d[k]]
+            if extra:
+                d[k].append(rng.choice(extra))
+        elif k == 'T':
+            d[k].append((rng.choice([4, 5, 7]), rng.choice(['DEPOT', 'NODEPOT'])))
+        elif k == 'P':
+            d[k].append((rng.choice([4, 5]), 'DRUG'))
+        elif k == 'I':
+            extra = [(m, p) for m in G_PD for p in G_PROD if (m, p) not in d[k]]
+            if extra:
+                d[k].append(rng.choice(extra))
+        elif k == 'C':
+            d['C'].append((['CL'], ['WGT'], ['EXP'], '*', rng.random() < 0.5))
+    elif how == 'dropcat' and len(d) > 1:
+        del d[k]
+    elif how == 'flag' and 'C' in d:
+        i = rng.randrange(len(d['C']))
+        p, c, f, o, t = d['C'][i]
+        d['C'][i] = (p, c, f, o, not t)
+    return d
+
+
+def _lst(rng, xs, allow_single=True):
+    xs = list(xs)
+    rng.shuffle(xs)
+    if len(xs) == 1 and allow_single and rng.random() < 0.6:
+        return str(xs[0])
+    return '[' + ','.join(map(str, xs)) + ']'
+
+
+def _counts(rng, cs):
+    cs = sorted(set(cs))
+    if len(cs) >= 2 and cs == list(range(cs[0], cs[-1] + 1)) and rng.random() < 0.6:
+        return f'{cs[0]}..{cs[-1]}'
+    return _lst(rng, cs)
+
+
+def render_denotation(rng, d, wild=False):
+    st = []
+    names = {'A': ('ABSORPTION', G_ABS), 'E': ('ELIMINATION', G_ELI), 'L': ('LAGTIME', G_LAG),
+             'D': ('DIRECTEFFECT', G_PD), 'F': ('EFFECTCOMP', G_PD), 'M': ('METABOLITE', G_MET)}
+    order = list(d)
+    rng.shuffle(order)
+    for k in order:
+        v = d[k]
+        if k in names:
+            nm, pool = names[k]
+            if wild and set(v) == set(pool) and rng.random() < 0.7:
+                st.append(f'{nm}(*)')
+            elif len(v) > 1 and rng.random() < 0.25:
+                i = rng.randrange(1, len(v))
+                st.append(f'{nm}({_lst(rng, v[:i])})')
+                st.append(f'{nm}({_lst(rng, v[i:])})')
+            else:
+                st.append(f'{nm}({_lst(rng, v)})')
+        elif k in ('T', 'P', 'I'):
+            nm = {'T': 'TRANSITS', 'P': 'PERIPHERALS', 'I': 'INDIRECTEFFECT'}[k]
+            full = {'T': ['DEPOT', 'NODEPOT'], 'P': ['DRUG', 'MET'], 'I': G_PROD}[k]
+            by = {}
+            for c, g in v:
+                by.setdefault(g, []).append(c)
+            groups = list(by.items())
+            rng.shuffle(groups)
+            # statements with the same value list may be merged into one with a key list / wildcard
+            merged = False
+            if k != 'I' and len(groups) == 2 and sorted(groups[0][1]) == sorted(groups[1][1]) and rng.random() < 0.6:
+                key = '*' if (wild and rng.random() < 0.6) else _lst(rng, full, allow_single=False)
+                st.append(f'{nm}({_counts(rng, groups[0][1])},{key})')
+                merged = True
+            if not merged:
+                for g, cs in groups:
+                    parts = [cs]
+                    if len(cs) > 1 and rng.random() < 0.3:
+                        i = rng.randrange(1, len(cs))
+                        parts = [cs[:i], cs[i:]]
+                    for pcs in parts:
+                        if k == 'I':
+                            vals = '*' if (wild and set(pcs) == set(G_PD) and rng.random() < 0.7) else _lst(rng, pcs)
+                            st.append(f'{nm}({vals},{g})')
+                        else:
+                            default = {'T': 'DEPOT', 'P': 'DRUG'}[k]
+                            key = '' if (g == default and rng.random() < 0.6) else ',' + g
+                            st.append(f'{nm}({_counts(rng, pcs)}{key})')
+        elif k == 'C':
+            lets = []
+            for (p, c, f, o, t) in v:
+                q = '?' if t else ''
+                fp = '*' if (wild and set(f) == {'LIN', 'PIECE_LIN', 'EXP', 'POW'}) else _lst(rng, f)
+                ps = _lst(rng, p)
+                if rng.random() < 0.2:          # LET reference
+                    nm = 'P' + 'ABCDEFGH'[len(lets)]
+                    lets.append(f'LET({nm},{_lst(rng, p, allow_single=False)})')
+                    ps = '@' + nm
+                op = '' if (o == '*' and rng.random() < 0.6) else ',' + o
+                st.append(f'COVARIATE{q}({ps},{_lst(rng, c)},{fp}{op})')
+            st = lets + st
+    return ';'.join(st)
+
+
+def gen_mfl_spec(rng, family):
+    wild = family == 'pk_wild' or (family == 'mixed' and rng.random() < 0.3)
+    for _ in range(20):
+        da = gen_denotation(rng, family)
+        db = mutate_denotation(rng, da) if rng.random() < 0.6 else gen_denotation(rng, family)
+        a, b = render_denotation(rng, da, wild), render_denotation(rng, db, wild)
+        if a and b:
+            return {'kind': 'mfl', 'family': family, 'a': a, 'b': b}
+    return {'kind': 'mfl', 'family': family, 'a': 'ABSORPTION(FO)', 'b': 'ABSORPTION(FO)'}
